@@ -169,10 +169,10 @@ def jobs(tier):
     ]
     q = tier == "quick"
     out += [
-        {"mode": "group", "K": 5 if q else 6, "faults": 2, "leader": True, "stop": True},
-        {"mode": "group", "K": 5 if q else 6, "faults": 2, "leader": False, "stop": True},
-        {"mode": "group", "K": 4 if q else 5, "faults": 2, "leader": False, "stop": True, "prefix": "stable-commit-hb", "autocommit": True},
-        {"mode": "group", "K": 4 if q else 5, "faults": 2, "leader": False, "stop": True, "prefix": "rejoin-with-hb-pending", "autocommit": True},
+        {"mode": "group", "K": 5, "faults": 2, "leader": True, "stop": True},
+        {"mode": "group", "K": 5, "faults": 2, "leader": False, "stop": True},
+        {"mode": "group", "K": 4, "faults": 2, "leader": False, "stop": True, "prefix": "stable-commit-hb", "autocommit": True},
+        {"mode": "group", "K": 4, "faults": 2, "leader": False, "stop": True, "prefix": "rejoin-with-hb-pending", "autocommit": True},
     ]
     return out
 
